@@ -153,6 +153,533 @@ where M: MatIO<X, N> + Copy + Send + Sync + Mul<M, Output = M> {
     });
 }
 
+// =====================================================================================================
+// Audit round: the sections above decide the claim for all inputs only *if* the premise (branch-free
+// ring arithmetic of degree 2) holds; a failed premise merely degrades the evidence.  Everything below
+// widens the alphabets (signed / dense / fractional / 2^+-40-scaled affine images of the same lattice,
+// which stay unisolvent: an affine bijection preserves polynomial degree), adds call sequences, value-level
+// scalar / element-wise / is_zero checks (a free term never takes a `is_zero()` or `==` branch), a
+// symbolic expansion of every product into a polynomial, and the real primitive element types.
+// =====================================================================================================
+use num_traits::{One, Zero};
+use std::collections::BTreeMap;
+use vx::term::Node;
+
+/// `par_lattice` with a split deep enough that no work item holds more than a few percent of the points
+/// (the library version splits on at most 8 coordinates: 59% of L(48,3) would land in one task)
+fn par_lattice_bal(n: usize, d: u32, f: impl Fn(&[i64]) + Sync) {
+    use rayon::prelude::*;
+    let mut k = n.min(3);
+    while k < n && lattice_count(k, d) < 20000 { k += 1; }
+    let mut pre: Vec<Vec<i64>> = Vec::new();
+    lattice(k, d, |p| pre.push(p.to_vec()));
+    pre.sort_by_key(|p| p.iter().sum::<i64>());
+    pre.par_iter().for_each(|p| {
+        let used: i64 = p.iter().sum();
+        let mut buf = vec![0i64; n];
+        buf[..k].copy_from_slice(p);
+        lattice(n - k, d - used as u32, |rest| { buf[k..].copy_from_slice(rest); f(&buf); });
+    });
+}
+const MAPS: [&str; 5] = ["signed", "dense", "fractional", "scaled-up-down", "scaled-up-up"];
+fn p2(e: i32) -> X { if e >= 0 { qi(1i128 << e) } else { q(1, 1i128 << (-e)) } }
+fn dense_i(idx: usize, a: i64) -> i64 { [1, -2, 3, -1, 2][idx % 5] + [-1, 2, -3, 1][idx % 4] * a }
+/// affine image of the lattice value `a` of coordinate `idx`; `op`: 0 = first operand, 1 = second, 2 = third
+fn aff(map: usize, idx: usize, a: i64, op: usize) -> X {
+    match map {
+        0 => if (idx * 7 + idx / 3) % 2 == 0 { qi(-a as i128) } else { qi(a as i128) },
+        1 => qi(dense_i(idx, a) as i128),
+        2 => q([1, -3, 5, -7][idx % 4], 2) + q([2, -1, 4][idx % 3], 3) * qi(a as i128),
+        3 => qi(dense_i(idx, a) as i128) * p2(if op % 2 == 0 { 40 } else { -40 }),
+        _ => qi(dense_i(idx, a) as i128) * p2(40),
+    }
+}
+fn arrm<const N: usize>(map: usize, a: &[i64], off: usize, op: usize) -> A<X, N> { let mut m = [[qi(0); N]; N]; for i in 0..N { for j in 0..N { m[i][j] = aff(map, off + i * N + j, a[i * N + j], op); } } m }
+fn vecm<const N: usize>(map: usize, a: &[i64], off: usize, op: usize) -> [X; N] { let mut v = [qi(0); N]; for i in 0..N { v[i] = aff(map, off + i, a[i], op); } v }
+fn nzm<const N: usize>(m: &A<X, N>) -> bool { m.iter().flatten().any(|v| !v.is_zero()) }
+fn has_neg<const N: usize>(m: &A<X, N>) -> bool { m.iter().flatten().any(|v| *v < qi(0)) }
+
+/// every matrix*matrix form on affine images of L(2N^2, d) (same sites / classes as `mm_products`)
+fn mm_products_map<const N: usize, R, C>(s: &Section, d: u32, maps: &[usize])
+where
+    R: MatIO<X, N> + Copy + Send + Sync + Mul<R, Output = R> + Mul<C, Output = C> + MulAssign<R>,
+    C: MatIO<X, N> + Copy + Send + Sync + Mul<C, Output = C> + Mul<R, Output = R> + MulAssign<C>,
+{
+    let nn = N * N;
+    let negres = std::sync::atomic::AtomicU64::new(0);
+    for &map in maps {
+        par_lattice_bal(2 * nn, d, |a| {
+            let (aa, bb) = (arrm::<N>(map, &a[..nn], 0, 0), arrm::<N>(map, &a[nn..], nn, 1));
+            let want = mmul(&aa, &bb);
+            let nz = nzm(&aa) && nzm(&bb);
+            if has_neg(&want) { negres.fetch_add(1, std::sync::atomic::Ordering::Relaxed); }
+            let w: u64 = a.iter().sum::<i64>() as u64;
+            let inp = || json!({"map": MAPS[map], "A": jmat(&aa), "B": jmat(&bb)});
+            let (ra, rb, ca, cb) = (R::build(&aa), R::build(&bb), C::build(&aa), C::build(&bb));
+            let chk = |site: &str, got: Option<A<X, N>>| {
+                s.eval(nz);
+                if let Some(g) = got { if g != want { s.violation_w(&format!("Mat{}::mul {}", N, site), "wrong-product", json!({"input": inp(), "got": jmat(&g), "want": jmat(&want)}), w); } }
+            };
+            chk("row*row", s.call("row*row", inp, || (ra * rb).decode()));
+            chk("col*col", s.call("col*col", inp, || (ca * cb).decode()));
+            chk("row*col->col", s.call("row*col", inp, || (ra * cb).decode()));
+            chk("col*row->row", s.call("col*row", inp, || (ca * rb).decode()));
+            chk("row*=row", s.call("row*=row", inp, || { let mut m = ra; m *= rb; m.decode() }));
+            chk("col*=col", s.call("col*=col", inp, || { let mut m = ca; m *= cb; m.decode() }));
+            if map == 1 && w == d as u64 && s.wants_sample() { s.sample(json!({"N": N, "map": MAPS[map], "A": jmat(&aa), "B": jmat(&bb), "A*B": jmat(&want), "forms_checked": 6})); }
+        });
+        s.class_n(MAPS[map], lattice_count(2 * nn, d) as u64);
+    }
+    s.class_n("negative-result-entry", negres.into_inner());
+    s.meta("lattice", json!({"order": d, "points_per_map": lattice_count(2 * nn, d).to_string(), "maps": maps.iter().map(|&m| MAPS[m]).collect::<Vec<_>>()}));
+}
+
+/// matrix*column-vector and row-vector*matrix on affine images of L(N^2+N, d)
+fn mv_products_map<const N: usize, R, C, V>(s: &Section, d: u32, maps: &[usize])
+where
+    R: MatIO<X, N> + Copy + Send + Sync + Mul<V, Output = V>,
+    C: MatIO<X, N> + Copy + Send + Sync + Mul<V, Output = V>,
+    V: VecIO<X, N> + Copy + Send + Sync + Mul<R, Output = V> + Mul<C, Output = V>,
+{
+    let nn = N * N;
+    for &map in maps {
+        par_lattice_bal(nn + N, d, |a| {
+            let (aa, vv) = (arrm::<N>(map, &a[..nn], 0, 0), vecm::<N>(map, &a[nn..], nn, 1));
+            let (want_mv, want_vm) = (mvec(&aa, &vv), vmat(&vv, &aa));
+            let nz = nzm(&aa) && vv.iter().any(|v| !v.is_zero());
+            let w: u64 = a.iter().sum::<i64>() as u64;
+            let inp = || json!({"map": MAPS[map], "M": jmat(&aa), "v": jxs(&vv)});
+            let (r, c, v) = (R::build(&aa), C::build(&aa), V::build(&vv));
+            let chk = |site: &str, got: Option<[X; N]>, want: &[X; N]| {
+                s.eval(nz);
+                if let Some(g) = got { if &g != want { s.violation_w(&format!("Mat{} {}", N, site), "wrong-product", json!({"input": inp(), "got": jxs(&g), "want": jxs(want)}), w); } }
+            };
+            chk("row-major M*v", s.call("row M*v", inp, || (r * v).decode()), &want_mv);
+            chk("col-major M*v", s.call("col M*v", inp, || (c * v).decode()), &want_mv);
+            chk("v*row-major M", s.call("v*row M", inp, || (v * r).decode()), &want_vm);
+            chk("v*col-major M", s.call("v*col M", inp, || (v * c).decode()), &want_vm);
+            if map == 2 && w == d as u64 && s.wants_sample() { s.sample(json!({"N": N, "map": MAPS[map], "M": jmat(&aa), "v": jxs(&vv), "M*v": jxs(&want_mv), "v*M": jxs(&want_vm)})); }
+        });
+        s.class_n(MAPS[map], lattice_count(nn + N, d) as u64);
+    }
+    s.meta("lattice", json!({"order": d, "points_per_map": lattice_count(nn + N, d).to_string()}));
+}
+
+/// call sequences: triple products in both associations, mixed-layout chains, chained `*=`, vector chains
+fn seq_products<const N: usize, R, C, V>(s: &Section, d: u32, maps: &[usize])
+where
+    R: MatIO<X, N> + Copy + Send + Sync + Mul<R, Output = R> + Mul<C, Output = C> + Mul<V, Output = V> + MulAssign<R>,
+    C: MatIO<X, N> + Copy + Send + Sync + Mul<C, Output = C> + Mul<R, Output = R> + Mul<V, Output = V> + MulAssign<C>,
+    V: VecIO<X, N> + Copy + Send + Sync + Mul<R, Output = V> + Mul<C, Output = V>,
+{
+    let nn = N * N;
+    for &map in maps {
+        par_lattice_bal(3 * nn, d, |a| {
+            let (aa, bb, cc) = (arrm::<N>(map, &a[..nn], 0, 0), arrm::<N>(map, &a[nn..2 * nn], nn, 1), arrm::<N>(map, &a[2 * nn..], 2 * nn, 2));
+            let mut vv = [qi(0); N]; for k in 0..N { vv[k] = cc[k][N - 1 - k]; }
+            let ab = mmul(&aa, &bb);
+            let abc = mmul(&ab, &cc);
+            let (want_vab, want_abv) = (vmat(&vmat(&vv, &aa), &bb), mvec(&aa, &mvec(&bb, &vv)));
+            let nz = nzm(&aa) && nzm(&bb) && nzm(&cc);
+            let w: u64 = a.iter().sum::<i64>() as u64;
+            let inp = || json!({"map": MAPS[map], "A": jmat(&aa), "B": jmat(&bb), "C": jmat(&cc), "v": jxs(&vv)});
+            let (ra, rb, rc, ca, cb, cc_, v) = (R::build(&aa), R::build(&bb), R::build(&cc), C::build(&aa), C::build(&bb), C::build(&cc), V::build(&vv));
+            let chk = |site: &str, got: Option<A<X, N>>| {
+                s.eval(nz);
+                if let Some(g) = got { if g != abc { s.violation_w(&format!("Mat{} seq {}", N, site), "wrong-product", json!({"input": inp(), "got": jmat(&g), "want": jmat(&abc)}), w); } }
+            };
+            chk("row (A*B)*C", s.call("row (A*B)*C", inp, || ((ra * rb) * rc).decode()));
+            chk("row A*(B*C)", s.call("row A*(B*C)", inp, || (ra * (rb * rc)).decode()));
+            chk("col (A*B)*C", s.call("col (A*B)*C", inp, || ((ca * cb) * cc_).decode()));
+            chk("col A*(B*C)", s.call("col A*(B*C)", inp, || (ca * (cb * cc_)).decode()));
+            chk("mixed (rowA*colB)*rowC->row", s.call("mixed (rowA*colB)*rowC", inp, || ((ra * cb) * rc).decode()));
+            chk("mixed rowA*(colB*rowC)->row", s.call("mixed rowA*(colB*rowC)", inp, || (ra * (cb * rc)).decode()));
+            chk("mixed (colA*rowB)*colC->col", s.call("mixed (colA*rowB)*colC", inp, || ((ca * rb) * cc_).decode()));
+            chk("mixed colA*(rowB*colC)->col", s.call("mixed colA*(rowB*colC)", inp, || (ca * (rb * cc_)).decode()));
+            chk("row A*=B;A*=C", s.call("row A*=B;A*=C", inp, || { let mut m = ra; m *= rb; m *= rc; m.decode() }));
+            chk("col A*=B;A*=C", s.call("col A*=B;A*=C", inp, || { let mut m = ca; m *= cb; m *= cc_; m.decode() }));
+            let chkv = |site: &str, got: Option<[X; N]>, want: &[X; N]| {
+                s.eval(nz);
+                if let Some(g) = got { if &g != want { s.violation_w(&format!("Mat{} seq {}", N, site), "wrong-product", json!({"input": inp(), "got": jxs(&g), "want": jxs(want)}), w); } }
+            };
+            chkv("row (v*A)*B", s.call("row (v*A)*B", inp, || ((v * ra) * rb).decode()), &want_vab);
+            chkv("row v*(A*B)", s.call("row v*(A*B)", inp, || (v * (ra * rb)).decode()), &want_vab);
+            chkv("col (v*A)*B", s.call("col (v*A)*B", inp, || ((v * ca) * cb).decode()), &want_vab);
+            chkv("col v*(A*B)", s.call("col v*(A*B)", inp, || (v * (ca * cb)).decode()), &want_vab);
+            chkv("mixed v*(rowA*colB)", s.call("mixed v*(rowA*colB)", inp, || (v * (ra * cb)).decode()), &want_vab);
+            chkv("mixed (v*colA)*rowB", s.call("mixed (v*colA)*rowB", inp, || ((v * ca) * rb).decode()), &want_vab);
+            chkv("row A*(B*v)", s.call("row A*(B*v)", inp, || (ra * (rb * v)).decode()), &want_abv);
+            chkv("row (A*B)*v", s.call("row (A*B)*v", inp, || ((ra * rb) * v).decode()), &want_abv);
+            chkv("col A*(B*v)", s.call("col A*(B*v)", inp, || (ca * (cb * v)).decode()), &want_abv);
+            chkv("col (A*B)*v", s.call("col (A*B)*v", inp, || ((ca * cb) * v).decode()), &want_abv);
+            chkv("mixed (colA*rowB)*v", s.call("mixed (colA*rowB)*v", inp, || ((ca * rb) * v).decode()), &want_abv);
+            chkv("mixed rowA*(colB*v)", s.call("mixed rowA*(colB*v)", inp, || (ra * (cb * v)).decode()), &want_abv);
+            if map == 1 && w == d as u64 && s.wants_sample() { s.sample(json!({"N": N, "map": MAPS[map], "A": jmat(&aa), "B": jmat(&bb), "C": jmat(&cc), "A*B*C": jmat(&abc), "forms_checked": 22})); }
+        });
+        s.class_n(MAPS[map], lattice_count(3 * nn, d) as u64);
+    }
+    s.meta(&format!("lattice N={} D={}", N, d), json!({"points_per_map": lattice_count(3 * nn, d).to_string(), "maps": maps.iter().map(|&m| MAPS[m]).collect::<Vec<_>>()}));
+}
+/// degree premise of the sequences (triple product and chained `*=`): measured, must be <= 3
+fn deg_seq<const N: usize, R, C>(s: &Section) -> u32
+where
+    R: MatIO<Deg, N> + Copy + Mul<R, Output = R> + Mul<C, Output = C> + MulAssign<R>,
+    C: MatIO<Deg, N> + Copy + Mul<C, Output = C> + Mul<R, Output = R> + MulAssign<C>,
+{
+    let a = [[Deg::VAR; N]; N];
+    let mut maxd = 0u32;
+    let mut upd = |r: Result<A<Deg, N>, Caught>, what: &str| {
+        s.eval(true);
+        match r { Ok(m) => for d in m.iter().flatten() { maxd = maxd.max(d.n + d.d); if d.d != 0 { s.degrade(&format!("{}: division present", what)); } },
+                  Err(e) => s.degrade(&format!("{}: {:?}", what, e)) }
+    };
+    upd(catch(|| ((R::build(&a) * R::build(&a)) * R::build(&a)).decode()), "row triple");
+    upd(catch(|| (C::build(&a) * (C::build(&a) * C::build(&a))).decode()), "col triple");
+    upd(catch(|| ((R::build(&a) * C::build(&a)) * R::build(&a)).decode()), "mixed triple (row)");
+    upd(catch(|| (C::build(&a) * (R::build(&a) * C::build(&a))).decode()), "mixed triple (col)");
+    upd(catch(|| { let mut m = R::build(&a); m *= R::build(&a); m *= R::build(&a); m.decode() }), "row *= *=");
+    upd(catch(|| { let mut m = C::build(&a); m *= C::build(&a); m *= C::build(&a); m.decode() }), "col *= *=");
+    maxd
+}
+
+/// powers: M^k by repeated `*=` from the identity (every intermediate state compared) and by num_traits::pow
+fn powers<const N: usize, M>(s: &Section, d: u32, maps: &[usize], kmax: usize, id: M, lay: &str)
+where M: MatIO<X, N> + Copy + Send + Sync + Mul<M, Output = M> + MulAssign<M> + One {
+    for &map in maps {
+        par_lattice_bal(N * N, d, |a| {
+            let aa = arrm::<N>(map, a, 0, 0);
+            let m = M::build(&aa);
+            let w: u64 = a.iter().sum::<i64>() as u64;
+            let mut refs: Vec<A<X, N>> = vec![ident::<X, N>()];
+            for k in 1..=kmax { let p = mmul(&refs[k - 1], &aa); refs.push(p); }
+            let inp = || json!({"map": MAPS[map], "M": jmat(&aa)});
+            if let Some(steps) = s.call("I; repeat *= M", inp, || { let mut acc = id; let mut out = vec![acc.decode()]; for _ in 1..=kmax { acc *= m; out.push(acc.decode()); } out }) {
+                for k in 0..=kmax { s.eval(nzm(&aa) && k > 1); if steps[k] != refs[k] {
+                    s.violation_w(&format!("Mat{}<{}> identity() then {}x `*= M`", N, lay, k), "wrong-power", json!({"input": inp(), "got": jmat(&steps[k]), "want": jmat(&refs[k])}), w + k as u64); } }
+            }
+            for k in 0..=kmax {
+                s.eval(nzm(&aa) && k > 1);
+                if let Some(g) = s.call("num_traits::pow", inp, || num_traits::pow(m, k).decode()) { if g != refs[k] {
+                    s.violation_w(&format!("Mat{}<{}> num_traits::pow(M,{})", N, lay, k), "wrong-power", json!({"input": inp(), "got": jmat(&g), "want": jmat(&refs[k])}), w + k as u64); } }
+            }
+        });
+        s.class_n(MAPS[map], lattice_count(N * N, d) as u64);
+    }
+}
+
+/// the operator surface of one matrix type at element type X (value level)
+trait MatOps: Copy + Add<Output = Self> + Sub<Output = Self> + Div<Output = Self> + Rem<Output = Self> + Neg<Output = Self>
+    + Add<X, Output = Self> + Sub<X, Output = Self> + Mul<X, Output = Self> + Div<X, Output = Self> + Rem<X, Output = Self>
+    + AddAssign + SubAssign + DivAssign + RemAssign + AddAssign<X> + SubAssign<X> + MulAssign<X> + DivAssign<X> + RemAssign<X>
+    + Zero + One + PartialEq {}
+impl<T> MatOps for T where T: Copy + Add<Output = T> + Sub<Output = T> + Div<Output = T> + Rem<Output = T> + Neg<Output = T>
+    + Add<X, Output = T> + Sub<X, Output = T> + Mul<X, Output = T> + Div<X, Output = T> + Rem<X, Output = T>
+    + AddAssign + SubAssign + DivAssign + RemAssign + AddAssign<X> + SubAssign<X> + MulAssign<X> + DivAssign<X> + RemAssign<X>
+    + Zero + One + PartialEq {}
+
+/// scalar and element-wise operators on *values* (zero / one / negative / fractional / 2^+-40 scalars, zero and
+/// identity matrices included), `Zero::is_zero`, `One::is_one`: position (i,j) must be op(a_ij, b_ij) / op(a_ij, s)
+fn ew_values<const N: usize, M: MatOps + MatIO<X, N>>(s: &Section, d: u32, lay: &str, mw: fn(M, M) -> M) {
+    let site = |op: &str| format!("Mat{}<{}> {}", N, lay, op);
+    let scalars: [(X, &str); 9] = [(qi(0), "zero-scalar"), (qi(1), "one-scalar"), (qi(-1), "negative-scalar"), (qi(2), "positive-scalar"), (qi(-3), "negative-scalar"),
+        (q(1, 2), "fractional-scalar"), (q(-7, 3), "fractional-scalar"), (p2(40), "huge-scalar"), (p2(-40), "tiny-scalar")];
+    // second operands / divisors: dense, every entry non-zero, not symmetric
+    let bs: Vec<A<X, N>> = (0..3usize).map(|k| { let mut m = [[qi(0); N]; N]; for i in 0..N { for j in 0..N {
+        let v = [3, -2, 5, -7, 4, -1, 6][(i * N + j + 2 * k) % 7]; m[i][j] = if k == 2 { q(v, 2 + ((i + j) % 2) as i128) } else { qi(v) }; } } m }).collect();
+    let mut mats: Vec<(A<X, N>, &'static str, u64)> = Vec::new();
+    lattice(N * N, d, |p| for map in 0..3 { mats.push((arrm::<N>(map, p, 0, 0), MAPS[map], p.iter().sum::<i64>() as u64)); });
+    mats.push((zeros::<X, N>(), "zero-matrix", 0)); mats.push((ident::<X, N>(), "identity-matrix", N as u64));
+    { let mut m = ident::<X, N>(); for i in 0..N { m[i][i] = qi(-1); } mats.push((m, "neg-identity", N as u64)); }
+    { let mut m = ident::<X, N>(); m[N - 1][0] = qi(1); mats.push((m, "identity-plus-one-entry", N as u64 + 1)); }
+    { let mut m = ident::<X, N>(); m[N - 1][N - 1] = qi(0); mats.push((m, "identity-minus-last", N as u64 - 1)); }
+    let bin_ops: [(&str, fn(M, M) -> M, fn(X, X) -> X); 9] = [
+        ("+ M", |a, b| a + b, |x, y| x + y), ("- M", |a, b| a - b, |x, y| x - y), ("/ M", |a, b| a / b, |x, y| x / y), ("% M", |a, b| a % b, |x, y| x % y),
+        ("mul_memberwise", mw, |x, y| x * y),
+        ("+= M", |mut a, b| { a += b; a }, |x, y| x + y), ("-= M", |mut a, b| { a -= b; a }, |x, y| x - y),
+        ("/= M", |mut a, b| { a /= b; a }, |x, y| x / y), ("%= M", |mut a, b| { a %= b; a }, |x, y| x % y)];
+    let sc_ops: [(&str, fn(M, X) -> M, fn(X, X) -> X, bool); 10] = [
+        ("+ scalar", |a, k| a + k, |x, y| x + y, false), ("- scalar", |a, k| a - k, |x, y| x - y, false), ("* scalar", |a, k| a * k, |x, y| x * y, false),
+        ("/ scalar", |a, k| a / k, |x, y| x / y, true), ("% scalar", |a, k| a % k, |x, y| x % y, true),
+        ("+= scalar", |mut a, k| { a += k; a }, |x, y| x + y, false), ("-= scalar", |mut a, k| { a -= k; a }, |x, y| x - y, false), ("*= scalar", |mut a, k| { a *= k; a }, |x, y| x * y, false),
+        ("/= scalar", |mut a, k| { a /= k; a }, |x, y| x / y, true), ("%= scalar", |mut a, k| { a %= k; a }, |x, y| x % y, true)];
+    for (aa, cls, w) in &mats {
+        s.class(cls);
+        let a = M::build(aa);
+        let cmp = |op: &str, rhs: &dyn Fn() -> Value, got: Option<M>, f: &dyn Fn(usize, usize) -> X| {
+            s.eval(true);
+            if let Some(m) = got { let g = m.decode(); for i in 0..N { for j in 0..N { let want = f(i, j); if g[i][j] != want {
+                s.violation_w(&site(op), "wrong-element", json!({"A": jmat(aa), "rhs": rhs(), "position": [i, j], "got": jx(g[i][j]), "want": jx(want)}), *w); } } } }
+        };
+        for bb in &bs {
+            let b = M::build(bb);
+            for (name, f, r) in bin_ops.iter() {
+                cmp(name, &|| jmat(bb), s.call(&site(name), || json!({"A": jmat(aa), "B": jmat(bb)}), || f(a, b)), &|i, j| r(aa[i][j], bb[i][j]));
+                // the zero matrix and the identity as *left* operand are in `mats`; as right operand only where no division occurs
+            }
+        }
+        for z in [zeros::<X, N>(), ident::<X, N>()] {
+            let b = M::build(&z);
+            for (name, f, r) in bin_ops.iter().filter(|o| !o.0.contains('/') && !o.0.contains('%')) {
+                cmp(name, &|| jmat(&z), s.call(&site(name), || json!({"A": jmat(aa), "B": jmat(&z)}), || f(a, b)), &|i, j| r(aa[i][j], z[i][j]));
+            }
+        }
+        for (k, kcls) in scalars.iter() {
+            s.class(kcls);
+            for (name, f, r, nonzero) in sc_ops.iter() {
+                if *nonzero && k.is_zero() { continue; }
+                cmp(name, &|| jx(*k), s.call(&site(name), || json!({"A": jmat(aa), "scalar": jx(*k)}), || f(a, *k)), &|i, j| r(aa[i][j], *k));
+            }
+        }
+        cmp("neg", &|| json!(null), s.call(&site("neg"), || jmat(aa), || -a), &|i, j| -aa[i][j]);
+        s.eval(true);
+        let (isz, iso) = (!nzm(aa), *aa == ident::<X, N>());
+        if isz { s.class("is_zero-true"); } else { s.class("is_zero-false"); }
+        if iso { s.class("is_one-true"); }
+        if let Some(g) = s.call(&site("Zero::is_zero"), || jmat(aa), || Zero::is_zero(&a)) { if g != isz {
+            s.violation_w(&site("Zero::is_zero"), "wrong-verdict", json!({"M": jmat(aa), "got": g, "want": isz}), *w); } }
+        if let Some(g) = s.call(&site("One::is_one"), || jmat(aa), || One::is_one(&a)) { if g != iso {
+            s.violation_w(&site("One::is_one"), "wrong-verdict", json!({"M": jmat(aa), "got": g, "want": iso}), *w); } }
+        if let Some(g) = s.call(&site("Zero::set_zero"), || jmat(aa), || { let mut m = a; Zero::set_zero(&mut m); m.decode() }) { if nzm(&g) {
+            s.violation_w(&site("Zero::set_zero"), "wrong-element", json!({"M": jmat(aa), "got": jmat(&g)}), *w); } }
+        if let Some(g) = s.call(&site("One::set_one"), || jmat(aa), || { let mut m = a; One::set_one(&mut m); m.decode() }) { if g != ident::<X, N>() {
+            s.violation_w(&site("One::set_one"), "wrong-element", json!({"M": jmat(aa), "got": jmat(&g)}), *w); } }
+    }
+    s.meta(&format!("Mat{}<{}>", N, lay), json!({"left_operands": mats.len(), "right_matrices": bs.len() + 2, "scalars": scalars.len()}));
+}
+
+/// identity neutrality beyond `I*M`, `M*I` of one layout: identity from identity() / One::one() / Default, mixed
+/// layouts, vectors on both sides, `M *= I`, on affine images of L(N^2+N, d)
+fn neutrality_ext<const N: usize, R, C, V>(s: &Section, d: u32, maps: &[usize], ids_r: &[(R, &str)], ids_c: &[(C, &str)])
+where
+    R: MatIO<X, N> + Copy + Send + Sync + Mul<R, Output = R> + Mul<C, Output = C> + Mul<V, Output = V> + MulAssign<R>,
+    C: MatIO<X, N> + Copy + Send + Sync + Mul<C, Output = C> + Mul<R, Output = R> + Mul<V, Output = V> + MulAssign<C>,
+    V: VecIO<X, N> + Copy + Send + Sync + Mul<R, Output = V> + Mul<C, Output = V>,
+{
+    let nn = N * N;
+    for &map in maps {
+        par_lattice_bal(nn + N, d, |a| {
+            let (aa, vv) = (arrm::<N>(map, &a[..nn], 0, 0), vecm::<N>(map, &a[nn..], nn, 1));
+            let (mr, mc, v) = (R::build(&aa), C::build(&aa), V::build(&vv));
+            let w: u64 = a.iter().sum::<i64>() as u64;
+            let nz = nzm(&aa);
+            let inp = || json!({"map": MAPS[map], "M": jmat(&aa), "v": jxs(&vv)});
+            let chk = |lay: &str, form: &str, how: &str, got: Option<A<X, N>>| {
+                s.eval(nz);
+                if let Some(g) = got { if g != aa { s.violation_w(&format!("Mat{}<{}> {} [I={}]", N, lay, form, how), "identity-not-neutral", json!({"input": inp(), "got": jmat(&g)}), w); } }
+            };
+            let chkv = |lay: &str, form: &str, how: &str, got: Option<[X; N]>| {
+                s.eval(vv.iter().any(|x| !x.is_zero()));
+                if let Some(g) = got { if g != vv { s.violation_w(&format!("Mat{}<{}> {} [I={}]", N, lay, form, how), "identity-not-neutral", json!({"input": inp(), "got": jxs(&g)}), w); } }
+            };
+            for &(ir, how) in ids_r {
+                chk("row", "I*M", how, s.call("I*M", inp, || (ir * mr).decode()));
+                chk("row", "M*I", how, s.call("M*I", inp, || (mr * ir).decode()));
+                chk("row", "M*=I", how, s.call("M*=I", inp, || { let mut m = mr; m *= ir; m.decode() }));
+                chk("row", "I*M(col)->col", how, s.call("I*M(col)", inp, || (ir * mc).decode()));
+                chk("row", "M(col)*I->row", how, s.call("M(col)*I", inp, || (mc * ir).decode()));
+                chkv("row", "I*v", how, s.call("I*v", inp, || (ir * v).decode()));
+                chkv("row", "v*I", how, s.call("v*I", inp, || (v * ir).decode()));
+            }
+            for &(ic, how) in ids_c {
+                chk("col", "I*M", how, s.call("I*M", inp, || (ic * mc).decode()));
+                chk("col", "M*I", how, s.call("M*I", inp, || (mc * ic).decode()));
+                chk("col", "M*=I", how, s.call("M*=I", inp, || { let mut m = mc; m *= ic; m.decode() }));
+                chk("col", "I*M(row)->row", how, s.call("I*M(row)", inp, || (ic * mr).decode()));
+                chk("col", "M(row)*I->col", how, s.call("M(row)*I", inp, || (mr * ic).decode()));
+                chkv("col", "I*v", how, s.call("I*v", inp, || (ic * v).decode()));
+                chkv("col", "v*I", how, s.call("v*I", inp, || (v * ic).decode()));
+            }
+        });
+        s.class_n(MAPS[map], lattice_count(nn + N, d) as u64);
+    }
+}
+
+// ---- symbolic expansion: Term -> polynomial with integer coefficients over commuting variables ------------
+type Poly = BTreeMap<Vec<u32>, i128>;
+fn p_lin(a: &Poly, b: &Poly, sg: i128) -> Poly { let mut o = a.clone(); for (m, c) in b { *o.entry(m.clone()).or_insert(0) += sg * c; } o.retain(|_, c| *c != 0); o }
+fn p_mul(a: &Poly, b: &Poly) -> Poly {
+    let mut o = Poly::new();
+    for (ma, ca) in a { for (mb, cb) in b { let mut m = ma.clone(); m.extend(mb.iter().copied()); m.sort(); *o.entry(m).or_insert(0) += ca * cb; } }
+    o.retain(|_, c| *c != 0); o
+}
+fn p_var(i: u32) -> Poly { let mut p = Poly::new(); p.insert(vec![i], 1); p }
+/// Ok(polynomial) for terms built from var / const / neg / add / sub / mul / fma, Err(node) otherwise
+fn poly_of(t: Term) -> Result<Poly, String> {
+    Ok(match t.node() {
+        Node::Var(i) => p_var(i),
+        Node::Const(c) => { let mut p = Poly::new(); if c != 0 { p.insert(vec![], c as i128); } p }
+        Node::Un(op, a) if op == "neg" => p_lin(&Poly::new(), &poly_of(a)?, -1),
+        Node::Bin(op, a, b) if op == "add" => p_lin(&poly_of(a)?, &poly_of(b)?, 1),
+        Node::Bin(op, a, b) if op == "sub" => p_lin(&poly_of(a)?, &poly_of(b)?, -1),
+        Node::Bin(op, a, b) if op == "mul" => p_mul(&poly_of(a)?, &poly_of(b)?),
+        Node::Tri(op, a, b, c) if op == "fma" => p_lin(&p_mul(&poly_of(a)?, &poly_of(b)?), &poly_of(c)?, 1),
+        other => return Err(format!("non-ring node {:?}", other)),
+    })
+}
+fn jpoly(p: &Poly) -> Value { Value::String(p.iter().map(|(m, c)| format!("{}*{}", c, m.iter().map(|v| format!("v{}", v)).collect::<Vec<_>>().join("."))).collect::<Vec<_>>().join(" + ")) }
+fn tvec<const N: usize>(off: u32) -> [Term; N] { let mut v = [Term::cst(0); N]; for i in 0..N { v[i] = Term::var(off + i as u32); } v }
+
+/// one run of every product form on pairwise distinct free variables; each output element, expanded, must be
+/// the polynomial sum_k a_ik b_kj (resp. sum_k a_ik v_k, sum_k v_k a_kj): the identity in all 2N^2 entries itself
+fn sym_products<const N: usize, R, C, V>(s: &Section, ids_r: &[(R, &str)], ids_c: &[(C, &str)])
+where
+    R: MatIO<Term, N> + Copy + Mul<R, Output = R> + Mul<C, Output = C> + Mul<V, Output = V> + MulAssign<R> + Mul<Term, Output = R>,
+    C: MatIO<Term, N> + Copy + Mul<C, Output = C> + Mul<R, Output = R> + Mul<V, Output = V> + MulAssign<C> + Mul<Term, Output = C>,
+    V: VecIO<Term, N> + Copy + Mul<R, Output = V> + Mul<C, Output = V>,
+{
+    let (ta, tb, tv) = (tvars::<N>(0), tvars::<N>(100), tvec::<N>(200));
+    let (ra, rb, ca, cb, v) = (R::build(&ta), R::build(&tb), C::build(&ta), C::build(&tb), V::build(&tv));
+    let pa = |i: usize, j: usize| p_var((i * N + j) as u32);
+    let pb = |i: usize, j: usize| p_var(100 + (i * N + j) as u32);
+    let pv = |i: usize| p_var(200 + i as u32);
+    let sum = |f: &dyn Fn(usize) -> Poly| { let mut o = Poly::new(); for k in 0..N { o = p_lin(&o, &f(k), 1); } o };
+    let elem = |site: String, class: &str, pos: Value, got: Term, want: Poly| {
+        s.eval(true);
+        match poly_of(got) {
+            Ok(p) => if p != want { s.violation(&site, class, json!({"position": pos, "got_term": jd(&got), "got_polynomial": jpoly(&p), "want_polynomial": jpoly(&want)})); },
+            Err(e) => s.violation(&site, "non-ring-operation", json!({"position": pos, "got_term": jd(&got), "why": e})),
+        }
+    };
+    let mat = |site: String, class: &str, got: Result<A<Term, N>, Caught>, want: &dyn Fn(usize, usize) -> Poly| match got {
+        Ok(g) => for i in 0..N { for j in 0..N { elem(site.clone(), class, json!([i, j]), g[i][j], want(i, j)); } },
+        Err(e) => { s.eval(true); s.violation(&site, "panic", json!({"error": jd(&e)})) }
+    };
+    let vecr = |site: String, class: &str, got: Result<[Term; N], Caught>, want: &dyn Fn(usize) -> Poly| match got {
+        Ok(g) => for i in 0..N { elem(site.clone(), class, json!([i]), g[i], want(i)); },
+        Err(e) => { s.eval(true); s.violation(&site, "panic", json!({"error": jd(&e)})) }
+    };
+    let ab = |i: usize, j: usize| sum(&|k| p_mul(&pa(i, k), &pb(k, j)));
+    let mm = |f: &str| format!("Mat{}::mul {}", N, f);
+    mat(mm("row*row"), "wrong-polynomial", catch(|| (ra * rb).decode()), &ab);
+    mat(mm("col*col"), "wrong-polynomial", catch(|| (ca * cb).decode()), &ab);
+    mat(mm("row*col->col"), "wrong-polynomial", catch(|| (ra * cb).decode()), &ab);
+    mat(mm("col*row->row"), "wrong-polynomial", catch(|| (ca * rb).decode()), &ab);
+    mat(mm("row*=row"), "wrong-polynomial", catch(|| { let mut m = ra; m *= rb; m.decode() }), &ab);
+    mat(mm("col*=col"), "wrong-polynomial", catch(|| { let mut m = ca; m *= cb; m.decode() }), &ab);
+    let mvw = |i: usize| sum(&|k| p_mul(&pa(i, k), &pv(k)));
+    let vmw = |j: usize| sum(&|k| p_mul(&pv(k), &pa(k, j)));
+    let mv = |f: &str| format!("Mat{} {}", N, f);
+    vecr(mv("row-major M*v"), "wrong-polynomial", catch(|| (ra * v).decode()), &mvw);
+    vecr(mv("col-major M*v"), "wrong-polynomial", catch(|| (ca * v).decode()), &mvw);
+    vecr(mv("v*row-major M"), "wrong-polynomial", catch(|| (v * ra).decode()), &vmw);
+    vecr(mv("v*col-major M"), "wrong-polynomial", catch(|| (v * ca).decode()), &vmw);
+    // scalar multiple as a polynomial (a_ij * s)
+    let sc = Term::var(999);
+    mat(format!("Mat{}<row> * scalar", N), "wrong-polynomial", catch(|| (ra * sc).decode()), &|i, j| p_mul(&pa(i, j), &p_var(999)));
+    mat(format!("Mat{}<col> * scalar", N), "wrong-polynomial", catch(|| (ca * sc).decode()), &|i, j| p_mul(&pa(i, j), &p_var(999)));
+    // neutrality as a polynomial identity: every element of I*M, M*I (same and mixed layout), I*v, v*I is the bare variable
+    for &(ir, how) in ids_r {
+        let st = |form: &str| format!("Mat{}<row> {} [I={}]", N, form, how);
+        mat(st("I*M"), "identity-not-neutral", catch(|| (ir * ra).decode()), &pa);
+        mat(st("M*I"), "identity-not-neutral", catch(|| (ra * ir).decode()), &pa);
+        mat(st("M*=I"), "identity-not-neutral", catch(|| { let mut m = ra; m *= ir; m.decode() }), &pa);
+        mat(st("I*M(col)->col"), "identity-not-neutral", catch(|| (ir * ca).decode()), &pa);
+        mat(st("M(col)*I->row"), "identity-not-neutral", catch(|| (ca * ir).decode()), &pa);
+        vecr(st("I*v"), "identity-not-neutral", catch(|| (ir * v).decode()), &pv);
+        vecr(st("v*I"), "identity-not-neutral", catch(|| (v * ir).decode()), &pv);
+    }
+    for &(ic, how) in ids_c {
+        let st = |form: &str| format!("Mat{}<col> {} [I={}]", N, form, how);
+        mat(st("I*M"), "identity-not-neutral", catch(|| (ic * ca).decode()), &pa);
+        mat(st("M*I"), "identity-not-neutral", catch(|| (ca * ic).decode()), &pa);
+        mat(st("M*=I"), "identity-not-neutral", catch(|| { let mut m = ca; m *= ic; m.decode() }), &pa);
+        mat(st("I*M(row)->row"), "identity-not-neutral", catch(|| (ic * ra).decode()), &pa);
+        mat(st("M(row)*I->col"), "identity-not-neutral", catch(|| (ra * ic).decode()), &pa);
+        vecr(st("I*v"), "identity-not-neutral", catch(|| (ic * v).decode()), &pv);
+        vecr(st("v*I"), "identity-not-neutral", catch(|| (v * ic).decode()), &pv);
+    }
+    if s.wants_sample() { if let Ok(g) = catch(|| (ra * cb).decode()) { s.sample(json!({"form": format!("Mat{} row*col", N), "element": [0, 1], "term": jd(&g[0][1]), "expanded": poly_of(g[0][1]).map(|p| jpoly(&p)).unwrap_or_default(), "must_be": jpoly(&ab(0, 1))})); } }
+}
+
+// ---- the same generic code instantiated at the real primitive element types --------------------------------
+fn f32p2(e: i32) -> f32 { assert!((-126..=127).contains(&e)); f32::from_bits(((127 + e) as u32) << 23) }
+fn f64p2(e: i32) -> f64 { assert!((-1022..=1023).contains(&e)); f64::from_bits(((1023 + e) as u64) << 52) }
+
+/// all 10 product forms at element type T on integer images of L(2N^2, d) (dense signed, or dense non-negative for
+/// unsigned T), each operand uniformly scaled by an exact power of two for floats: every intermediate value is
+/// exactly representable, so any evaluation order (fused or not) of the defining sums gives exactly `want`
+fn prim_products<const N: usize, T, R, C, V>(s: &Section, d: u32, tname: &str, signed: bool, conv: &(dyn Fn(i128, i32) -> T + Sync), scales: &[(i32, i32)])
+where
+    T: Copy + PartialEq + std::fmt::Debug + Send + Sync,
+    R: MatIO<T, N> + Copy + Send + Sync + Mul<R, Output = R> + Mul<C, Output = C> + Mul<V, Output = V> + MulAssign<R>,
+    C: MatIO<T, N> + Copy + Send + Sync + Mul<C, Output = C> + Mul<R, Output = R> + Mul<V, Output = V> + MulAssign<C>,
+    V: VecIO<T, N> + Copy + Send + Sync + Mul<R, Output = V> + Mul<C, Output = V>,
+{
+    let nn = N * N;
+    let cs: Vec<String> = ["row*row", "col*col", "row*col", "col*row", "row*=row", "col*=col", "row M*v", "col M*v", "v*row M", "v*col M"].iter().map(|f| format!("Mat{}<{}> {}", N, tname, f)).collect();
+    par_lattice_bal(2 * nn, d, |a| {
+        let img = |idx: usize, v: i64| -> i128 { if signed { dense_i(idx, v) as i128 } else { (v + ((idx * 5 + idx / N) % 3) as i64) as i128 } };
+        let mut ia = [[0i128; N]; N]; let mut ib = [[0i128; N]; N];
+        for i in 0..N { for j in 0..N { ia[i][j] = img(i * N + j, a[i * N + j]); ib[i][j] = img(nn + i * N + j, a[nn + i * N + j]); } }
+        let mut iv = [0i128; N]; for k in 0..N { iv[k] = ib[k][N - 1 - k]; }
+        let (wab, wav, wva) = (mmul(&ia, &ib), mvec(&ia, &iv), vmat(&iv, &ia));
+        let w: u64 = a.iter().sum::<i64>() as u64;
+        for &(sa, sb) in scales {
+            let cm = |m: &A<i128, N>, e: i32| { let mut o = [[conv(0, 0); N]; N]; for i in 0..N { for j in 0..N { o[i][j] = conv(m[i][j], e); } } o };
+            let cv = |m: &[i128; N], e: i32| { let mut o = [conv(0, 0); N]; for i in 0..N { o[i] = conv(m[i], e); } o };
+            let (ta, tb, tv) = (cm(&ia, sa), cm(&ib, sb), cv(&iv, sb));
+            let (want_ab, want_av, want_va) = (cm(&wab, sa + sb), cv(&wav, sa + sb), cv(&wva, sa + sb));
+            let inp = || json!({"T": tname, "A": jd(&ta), "B": jd(&tb), "v": jd(&tv), "scale_exponents": [sa, sb]});
+            let (ra, rb, ca, cb, v) = (R::build(&ta), R::build(&tb), C::build(&ta), C::build(&tb), V::build(&tv));
+            let chk = |form: &str, got: Option<A<T, N>>| {
+                s.eval(true);
+                if let Some(g) = got { if g != want_ab { s.violation_w(&format!("Mat{}<{}>::mul {}", N, tname, form), "wrong-product", json!({"input": inp(), "got": jd(&g), "want": jd(&want_ab)}), w); } }
+            };
+            chk("row*row", s.call(&cs[0], inp, || (ra * rb).decode()));
+            chk("col*col", s.call(&cs[1], inp, || (ca * cb).decode()));
+            chk("row*col->col", s.call(&cs[2], inp, || (ra * cb).decode()));
+            chk("col*row->row", s.call(&cs[3], inp, || (ca * rb).decode()));
+            chk("row*=row", s.call(&cs[4], inp, || { let mut m = ra; m *= rb; m.decode() }));
+            chk("col*=col", s.call(&cs[5], inp, || { let mut m = ca; m *= cb; m.decode() }));
+            let chkv = |form: &str, got: Option<[T; N]>, want: &[T; N]| {
+                s.eval(true);
+                if let Some(g) = got { if &g != want { s.violation_w(&format!("Mat{}<{}> {}", N, tname, form), "wrong-product", json!({"input": inp(), "got": jd(&g), "want": jd(want)}), w); } }
+            };
+            chkv("row-major M*v", s.call(&cs[6], inp, || (ra * v).decode()), &want_av);
+            chkv("col-major M*v", s.call(&cs[7], inp, || (ca * v).decode()), &want_av);
+            chkv("v*row-major M", s.call(&cs[8], inp, || (v * ra).decode()), &want_va);
+            chkv("v*col-major M", s.call(&cs[9], inp, || (v * ca).decode()), &want_va);
+        }
+    });
+    s.class_n(tname, lattice_count(2 * nn, d) as u64 * scales.len() as u64);
+}
+
+/// reference values of the six Vec4-as-2x2 helpers from the 2x2 matrix expressions (adj[[a,b],[c,d]] = [[d,-b],[-c,a]])
+fn mat2_refs<T: Ring>(a: &[T; 4], b: &[T; 4]) -> [(&'static str, [T; 4]); 6] {
+    let rows = |v: &[T; 4]| -> A<T, 2> { [[v[0], v[1]], [v[2], v[3]]] };
+    let cols = |v: &[T; 4]| -> A<T, 2> { [[v[0], v[2]], [v[1], v[3]]] };
+    let adj = |m: &A<T, 2>| -> A<T, 2> { [[m[1][1], -m[0][1]], [-m[1][0], m[0][0]]] };
+    let flat_r = |m: A<T, 2>| [m[0][0], m[0][1], m[1][0], m[1][1]];
+    let flat_c = |m: A<T, 2>| [m[0][0], m[1][0], m[0][1], m[1][1]];
+    [("mat2_rows_mul", flat_r(mmul(&rows(a), &rows(b)))), ("mat2_rows_adj_mul", flat_r(mmul(&adj(&rows(a)), &rows(b)))), ("mat2_rows_mul_adj", flat_r(mmul(&rows(a), &adj(&rows(b))))),
+     ("mat2_cols_mul", flat_c(mmul(&cols(a), &cols(b)))), ("mat2_cols_adj_mul", flat_c(mmul(&adj(&cols(a)), &cols(b)))), ("mat2_cols_mul_adj", flat_c(mmul(&cols(a), &adj(&cols(b)))))]
+}
+fn mat2_calls<T: Copy + Add<Output = T> + Mul<Output = T> + Sub<Output = T>>() -> [fn(Vec4<T>, Vec4<T>) -> Vec4<T>; 6] {
+    [|a, b| a.mat2_rows_mul(b), |a, b| a.mat2_rows_adj_mul(b), |a, b| a.mat2_rows_mul_adj(b), |a, b| a.mat2_cols_mul(b), |a, b| a.mat2_cols_adj_mul(b), |a, b| a.mat2_cols_mul_adj(b)]
+}
+/// Vec4 helpers at a primitive element type (integer images of L(8,d), power-of-two scaling for floats)
+fn vec4_prim<T>(s: &Section, d: u32, tname: &str, conv: &(dyn Fn(i128, i32) -> T + Sync), scales: &[(i32, i32)])
+where T: Copy + PartialEq + std::fmt::Debug + Send + Sync + Add<Output = T> + Mul<Output = T> + Sub<Output = T> {
+    let calls = mat2_calls::<T>();
+    par_lattice_bal(8, d, |p| {
+        let mut ia = [0i128; 4]; let mut ib = [0i128; 4];
+        for k in 0..4 { ia[k] = dense_i(k, p[k]) as i128; ib[k] = dense_i(4 + k, p[4 + k]) as i128; }
+        let refs = mat2_refs(&ia, &ib);
+        for &(sa, sb) in scales {
+            let c4 = |v: &[i128; 4], e: i32| [conv(v[0], e), conv(v[1], e), conv(v[2], e), conv(v[3], e)];
+            let (ta, tb) = (c4(&ia, sa), c4(&ib, sb));
+            for (k, (name, want)) in refs.iter().enumerate() {
+                s.eval(true);
+                let want = c4(want, sa + sb);
+                let site = format!("Vec4<{}>::{}", tname, name);
+                if let Some(g) = s.call(&site, || json!({"a": jd(&ta), "b": jd(&tb)}), || dv4(&calls[k](v4(&ta), v4(&tb)))) { if g != want {
+                    s.violation_w(&site, "wrong-product", json!({"a": jd(&ta), "b": jd(&tb), "got": jd(&g), "want": jd(&want)}), p.iter().sum::<i64>() as u64); } }
+            }
+        }
+    });
+    s.class_n(tname, lattice_count(8, d) as u64 * scales.len() as u64);
+}
+
 fn main() {
     let rep = Report::start("C01", "exploration");
     let extra = if rep.thorough() { 4 } else { 2 };
@@ -197,7 +724,7 @@ fn main() {
         };
         s.meta("measured_degree", json!(dm));
         if dm > 2 { s.degrade("degree above lattice order"); }
-        par_lattice(8, 2 + extra, |p| {
+        par_lattice_bal(8, 2 + extra, |p| {
             let a: [X; 4] = vecx::<4>(&p[..4]); let b: [X; 4] = vecx::<4>(&p[4..]);
             let (va, vb) = (v4(&a), v4(&b));
             let rows = |v: &[X; 4]| -> A<X, 2> { [[v[0], v[1]], [v[2], v[3]]] };
@@ -221,6 +748,140 @@ fn main() {
             }
         });
         s.sample(json!({"a": [1, 0, 0, 0], "b": [0, 1, 0, 0], "functions": 6}));
+    });
+
+    // ------------------------------------------------------------------------------------------- audit round
+    let th = rep.thorough();
+    let all: &[usize] = &[0, 1, 2, 3, 4];
+    macro_rules! ids { ($M:ty) => { [(<$M>::identity(), "identity()"), (<$M as One>::one(), "One::one()"), (<$M as Default>::default(), "Default::default()")] } }
+
+    let rule_mm2 = "affine images of L(2N^2, D) (D: 4/4/3 quick, 8/6/4 thorough for N=2/3/4) under 5 coordinate-wise affine bijections: signed (alternating signs), dense (every entry offset, steps -1/2/-3/1), fractional (halves and thirds), scaled (A*2^40, B*2^-40) and (A*2^40, B*2^40); an affine image of the principal lattice is unisolvent for the same degree, so each map decides the degree-2 identity again on negative / odd / rational / extreme inputs; all 6 matrix*matrix forms; non-trivial: both operands non-zero";
+    rep.section("matrix*matrix N=2 (affine lattice images)", rule_mm2, true, true, |s| { s.require_classes(&MAPS); s.require_classes(&["negative-result-entry"]); mm_products_map::<2, rm::Mat2<X>, cm::Mat2<X>>(s, if th { 8 } else { 4 }, all) });
+    rep.section("matrix*matrix N=3 (affine lattice images)", rule_mm2, true, true, |s| { s.require_classes(&MAPS); s.require_classes(&["negative-result-entry"]); mm_products_map::<3, rm::Mat3<X>, cm::Mat3<X>>(s, if th { 6 } else { 4 }, all) });
+    rep.section("matrix*matrix N=4 (affine lattice images)", rule_mm2, true, true, |s| { s.require_classes(&MAPS); s.require_classes(&["negative-result-entry"]); mm_products_map::<4, rm::Mat4<X>, cm::Mat4<X>>(s, if th { 4 } else { 3 }, all) });
+    let rule_mv2 = "affine images of L(N^2+N, D) (D = 4 quick; 8/6/6 thorough for N=2/3/4) under the same 5 maps (matrix scaled by 2^40, vector by 2^-40 or 2^40): M*v and v*M for both layouts; non-trivial: matrix and vector non-zero";
+    rep.section("matrix*vector N=2 (affine lattice images)", rule_mv2, true, true, |s| { s.require_classes(&MAPS); mv_products_map::<2, rm::Mat2<X>, cm::Mat2<X>, Vec2<X>>(s, if th { 8 } else { 4 }, all) });
+    rep.section("matrix*vector N=3 (affine lattice images)", rule_mv2, true, true, |s| { s.require_classes(&MAPS); mv_products_map::<3, rm::Mat3<X>, cm::Mat3<X>, Vec3<X>>(s, if th { 6 } else { 4 }, all) });
+    rep.section("matrix*vector N=4 (affine lattice images)", rule_mv2, true, true, |s| { s.require_classes(&MAPS); mv_products_map::<4, rm::Mat4<X>, cm::Mat4<X>, Vec4<X>>(s, if th { 6 } else { 4 }, all) });
+
+    rep.section("call sequences: triple products, mixed-layout chains, chained *=, vector chains",
+        "affine images (signed, dense; N=4 quick: dense only; + fractional in thorough, N=4 thorough: dense and fractional at D=4, signed at D=3) of L(3N^2, D), D = 4/3/3 quick, 6/4/4 thorough for N=2/3/4 (measured degree 3): (A*B)*C and A*(B*C) in each layout, the four mixed-layout chains, A*=B;A*=C (in-place twin on a non-trivial prior state), (v*A)*B, v*(A*B), A*(B*v), (A*B)*v incl. mixed, vs the reference triple product; v = anti-diagonal of C; non-trivial: A, B, C all non-zero", true, true, |s| {
+        let d2 = deg_seq::<2, rm::Mat2<Deg>, cm::Mat2<Deg>>(s); let d3 = deg_seq::<3, rm::Mat3<Deg>, cm::Mat3<Deg>>(s); let d4 = deg_seq::<4, rm::Mat4<Deg>, cm::Mat4<Deg>>(s);
+        s.meta("measured_degree", json!({"mat2": d2, "mat3": d3, "mat4": d4}));
+        if d2.max(d3).max(d4) > 3 { s.degrade("measured degree of a triple product exceeds 3"); }
+        let maps: &[usize] = if th { &[0, 1, 2] } else { &[0, 1] };
+        s.require_classes(&["signed", "dense"]);
+        seq_products::<2, rm::Mat2<X>, cm::Mat2<X>, Vec2<X>>(s, if th { 6 } else { 4 }, maps);
+        seq_products::<3, rm::Mat3<X>, cm::Mat3<X>, Vec3<X>>(s, if th { 4 } else { 3 }, maps);
+        if th { seq_products::<4, rm::Mat4<X>, cm::Mat4<X>, Vec4<X>>(s, 4, &[1, 2]); seq_products::<4, rm::Mat4<X>, cm::Mat4<X>, Vec4<X>>(s, 3, &[0]); } else { seq_products::<4, rm::Mat4<X>, cm::Mat4<X>, Vec4<X>>(s, 3, &[1]); }
+    });
+    rep.section("call sequences: powers by repeated *= from identity() and num_traits::pow",
+        "affine images (signed, dense, fractional) of L(N^2, D), D = 3 quick / 5 thorough: identity() then k times `*= M` with every intermediate state compared to the reference power M^k, and num_traits::pow(M, k) (square-and-multiply through One::one and Mul), k = 0..=4 (quick) / 0..=6 (thorough); bounded (degree k > D); non-trivial: M non-zero and k >= 2", true, false, |s| {
+        s.require_classes(&["signed", "dense", "fractional"]);
+        let (d, k) = if th { (5, 6) } else { (3, 4) };
+        powers::<2, _>(s, d, &[0, 1, 2], k, rm::Mat2::<X>::identity(), "row"); powers::<2, _>(s, d, &[0, 1, 2], k, cm::Mat2::<X>::identity(), "col");
+        powers::<3, _>(s, d, &[0, 1, 2], k, rm::Mat3::<X>::identity(), "row"); powers::<3, _>(s, d, &[0, 1, 2], k, cm::Mat3::<X>::identity(), "col");
+        powers::<4, _>(s, d, &[0, 1, 2], k, rm::Mat4::<X>::identity(), "row"); powers::<4, _>(s, d, &[0, 1, 2], k, cm::Mat4::<X>::identity(), "col");
+        s.sample(json!({"M": "[[1,-2],[3,-1]] (dense image of the origin, N=2)", "checked": "I, I*=M, ..., and num_traits::pow(M,k) against M^k"}));
+    });
+
+    rep.section("element-wise operators and scalar forms on values, is_zero / is_one",
+        "left operand: the signed / dense / fractional images of every point of L(N^2, 2) (quick) / L(N^2, 3) (thorough) plus zero, identity, -identity, identity+1 entry, identity-1 entry; right operand: 3 dense non-zero non-symmetric matrices (one fractional) for all 9 matrix forms, and the zero and identity matrices for the 5 forms without division; scalars 0, 1, -1, 2, -3, 1/2, -7/3, 2^40, 2^-40 for the 10 scalar forms (/, % skipped at 0); each element vs op(a_ij, b_ij) / op(a_ij, s); Zero::is_zero <=> all entries 0, One::is_one <=> identity, set_zero, set_one; a value-level complement of the free-term section (a term never equals 0, so `is_zero()` / `==` shortcuts are invisible there); non-trivial: all", true, false, |s| {
+        s.require_classes(&["signed", "dense", "fractional", "zero-matrix", "identity-matrix", "zero-scalar", "negative-scalar", "fractional-scalar", "huge-scalar", "tiny-scalar", "is_zero-true", "is_zero-false", "is_one-true"]);
+        let d = if th { 3 } else { 2 };
+        ew_values::<2, rm::Mat2<X>>(s, d, "row", |a, b| a.mul_memberwise(b)); ew_values::<2, cm::Mat2<X>>(s, d, "col", |a, b| a.mul_memberwise(b));
+        ew_values::<3, rm::Mat3<X>>(s, d, "row", |a, b| a.mul_memberwise(b)); ew_values::<3, cm::Mat3<X>>(s, d, "col", |a, b| a.mul_memberwise(b));
+        ew_values::<4, rm::Mat4<X>>(s, d, "row", |a, b| a.mul_memberwise(b)); ew_values::<4, cm::Mat4<X>>(s, d, "col", |a, b| a.mul_memberwise(b));
+        s.sample(json!({"matrix": "Mat3<row> zero()", "scalar": "0", "law": "(M * 0)[i][j] == M[i][j] * 0, M.is_zero() == true"}));
+    });
+
+    rep.section("identity is neutral (three constructors, mixed layouts, vectors, *=)",
+        "affine images (signed, dense, fractional, scaled) of L(N^2+N, D), D = 4/3/2 quick, 5/4/3 thorough for N=2/3/4 (degree 1 in M for a constant I): for I from identity(), One::one(), Default::default() of each layout: I*M, M*I, M*=I, I*M(other layout), M(other layout)*I, I*v, v*I all return the operand unchanged; non-trivial: operand non-zero", true, true, |s| {
+        s.require_classes(&["signed", "dense", "fractional", "scaled-up-down"]);
+        let d = if th { 4 } else { 3 };
+        neutrality_ext::<2, rm::Mat2<X>, cm::Mat2<X>, Vec2<X>>(s, d + 1, &[0, 1, 2, 3], &ids!(rm::Mat2<X>), &ids!(cm::Mat2<X>));
+        neutrality_ext::<3, rm::Mat3<X>, cm::Mat3<X>, Vec3<X>>(s, d, &[0, 1, 2, 3], &ids!(rm::Mat3<X>), &ids!(cm::Mat3<X>));
+        neutrality_ext::<4, rm::Mat4<X>, cm::Mat4<X>, Vec4<X>>(s, d - 1, &[0, 1, 2, 3], &ids!(rm::Mat4<X>), &ids!(cm::Mat4<X>));
+        s.sample(json!({"M": "dense image", "law": "One::one() * M(col) == M, v * Default::default() == v, M *= identity() leaves M"}));
+    });
+
+    rep.section("products as polynomials (symbolic expansion of one run on free variables)",
+        "each product form of each size run once on pairwise distinct free variables (32 + 4 for N=4); every output element is expanded (var/const/neg/add/sub/mul/fma) into a polynomial with integer coefficients over commuting variables and compared with sum_k a_ik b_kj / sum_k a_ik v_k / sum_k v_k a_kj / a_ij s, and for I*M, M*I, M*=I, mixed, I*v, v*I (I from the three constructors) with the bare variable; this is the polynomial identity of the quantifier itself, independent of the lattice argument; it follows the single path a free term takes (branch-freedom is the premise section's business), hence not marked complete; non-trivial: all", true, false, |s| {
+        sym_products::<2, rm::Mat2<Term>, cm::Mat2<Term>, Vec2<Term>>(s, &ids!(rm::Mat2<Term>), &ids!(cm::Mat2<Term>));
+        sym_products::<3, rm::Mat3<Term>, cm::Mat3<Term>, Vec3<Term>>(s, &ids!(rm::Mat3<Term>), &ids!(cm::Mat3<Term>));
+        sym_products::<4, rm::Mat4<Term>, cm::Mat4<Term>, Vec4<Term>>(s, &ids!(rm::Mat4<Term>), &ids!(cm::Mat4<Term>));
+        // Vec4-as-2x2 helpers: expanded result vs the expanded reference 2x2 expression
+        let (ta, tb) = (tvec::<4>(0), tvec::<4>(100));
+        let refs = mat2_refs(&ta, &tb);
+        let calls = mat2_calls::<Term>();
+        for (k, (name, want)) in refs.iter().enumerate() {
+            match catch(|| dv4(&calls[k](v4(&ta), v4(&tb)))) {
+                Ok(g) => for i in 0..4 { s.eval(true); match (poly_of(g[i]), poly_of(want[i])) {
+                    (Ok(p), Ok(wp)) => if p != wp { s.violation(&format!("Vec4::{}", name), "wrong-polynomial", json!({"lane": i, "got_term": jd(&g[i]), "got_polynomial": jpoly(&p), "want_polynomial": jpoly(&wp)})); },
+                    (e1, e2) => s.violation(&format!("Vec4::{}", name), "non-ring-operation", json!({"lane": i, "got": jd(&e1), "reference": jd(&e2)})) } },
+                Err(e) => { s.eval(true); s.violation(&format!("Vec4::{}", name), "panic", json!({"error": jd(&e)})) }
+            }
+        }
+    });
+
+    rep.section("products at primitive element types (integers, f32/f64 with power-of-two scaling)",
+        "the 10 product forms (6 matrix*matrix, 4 matrix/vector) instantiated at i16, i32, i64, u8, u32, u64, f32, f64 on integer images of L(2N^2, D) (dense signed values, or dense non-negative for unsigned; D = 3/3/2 quick, 4 thorough), v = anti-diagonal of B; for floats each operand is scaled uniformly by 2^0, 2^+-40 (f32) / 2^+-400 (f64) in the combinations (0,0), (+,-), (-,+), (+,+), (-,-): every entry, product and partial sum is exactly representable, so the result must equal the exact product times 2^(ea+eb) bit for bit; non-trivial: all", true, false, |s| {
+        s.require_classes(&["i16", "i32", "i64", "u8", "u32", "u64", "f32", "f64"]);
+        let (d2, d3, d4) = if th { (4, 4, 4) } else { (3, 3, 2) };
+        let one: &[(i32, i32)] = &[(0, 0)];
+        let sc32: &[(i32, i32)] = &[(0, 0), (40, -40), (-40, 40), (40, 40), (-40, -40)];
+        let sc64: &[(i32, i32)] = &[(0, 0), (400, -400), (-400, 400), (400, 400), (-400, -400)];
+        macro_rules! prim { ($T:ty, $name:expr, $signed:expr, $conv:expr, $sc:expr) => {
+            prim_products::<2, $T, rm::Mat2<$T>, cm::Mat2<$T>, Vec2<$T>>(s, d2, $name, $signed, &$conv, $sc);
+            prim_products::<3, $T, rm::Mat3<$T>, cm::Mat3<$T>, Vec3<$T>>(s, d3, $name, $signed, &$conv, $sc);
+            prim_products::<4, $T, rm::Mat4<$T>, cm::Mat4<$T>, Vec4<$T>>(s, d4, $name, $signed, &$conv, $sc);
+        } }
+        prim!(i16, "i16", true, |v: i128, _e: i32| v as i16, one);
+        prim!(i32, "i32", true, |v: i128, _e: i32| v as i32, one);
+        prim!(i64, "i64", true, |v: i128, _e: i32| v as i64, one);
+        prim!(u8, "u8", false, |v: i128, _e: i32| v as u8, one);
+        prim!(u32, "u32", false, |v: i128, _e: i32| v as u32, one);
+        prim!(u64, "u64", false, |v: i128, _e: i32| v as u64, one);
+        prim!(f32, "f32", true, |v: i128, e: i32| (v as f32) * f32p2(e), sc32);
+        prim!(f64, "f64", true, |v: i128, e: i32| (v as f64) * f64p2(e), sc64);
+        s.sample(json!({"T": "f32", "A": "dense integers * 2^40", "B": "dense integers * 2^-40", "law": "A*B == exact integer product, bit for bit, in all 10 forms"}));
+    });
+
+    rep.section("Vec4-as-2x2 helpers (affine lattice images, primitives, vs the real Mat2 products)",
+        "the six helpers on the 5 affine images of L(8, D) (D = 4 quick / 8 thorough) vs the 2x2 expressions; the two plain products also vs the real row-major / column-major Mat2 * Mat2 on the same entries (differential); the six helpers at i32, i64, f32 (2^+-40), f64 (2^+-400) on dense integer images of L(8, D'), D' = 3 / 6; non-trivial: both operands non-zero", true, true, |s| {
+        s.require_classes(&MAPS); s.require_classes(&["i32", "i64", "f32", "f64"]);
+        let calls = mat2_calls::<X>();
+        let d = if th { 8 } else { 4 };
+        for map in 0..5usize {
+            par_lattice_bal(8, d, |p| {
+                let (a, b) = (vecm::<4>(map, &p[..4], 0, 0), vecm::<4>(map, &p[4..], 4, 1));
+                let nz = a.iter().any(|x| !x.is_zero()) && b.iter().any(|x| !x.is_zero());
+                let w = p.iter().sum::<i64>() as u64;
+                let refs = mat2_refs(&a, &b);
+                let mut got_plain: [Option<[X; 4]>; 2] = [None, None];
+                for (k, (name, want)) in refs.iter().enumerate() {
+                    s.eval(nz);
+                    if let Some(g) = s.call(name, || json!({"map": MAPS[map], "a": jxs(&a), "b": jxs(&b)}), || dv4(&calls[k](v4(&a), v4(&b)))) {
+                        if k % 3 == 0 { got_plain[k / 3] = Some(g); }
+                        if &g != want { s.violation_w(&format!("Vec4::{}", name), "wrong-product", json!({"map": MAPS[map], "a": jxs(&a), "b": jxs(&b), "got": jxs(&g), "want": jxs(want)}), w); }
+                    }
+                }
+                let rr = s.call("rm::Mat2*rm::Mat2", || json!({"a": jxs(&a), "b": jxs(&b)}), || dr2(&(r2(&[[a[0], a[1]], [a[2], a[3]]]) * r2(&[[b[0], b[1]], [b[2], b[3]]]))));
+                let cc = s.call("cm::Mat2*cm::Mat2", || json!({"a": jxs(&a), "b": jxs(&b)}), || dc2(&(c2(&[[a[0], a[2]], [a[1], a[3]]]) * c2(&[[b[0], b[2]], [b[1], b[3]]]))));
+                s.eval(nz); s.eval(nz);
+                if let (Some(m), Some(g)) = (rr, got_plain[0]) { if [m[0][0], m[0][1], m[1][0], m[1][1]] != g {
+                    s.violation_w("Vec4::mat2_rows_mul", "differs-from-row-major-Mat2-product", json!({"a": jxs(&a), "b": jxs(&b), "helper": jxs(&g), "Mat2": jmat(&m)}), w); } }
+                if let (Some(m), Some(g)) = (cc, got_plain[1]) { if [m[0][0], m[1][0], m[0][1], m[1][1]] != g {
+                    s.violation_w("Vec4::mat2_cols_mul", "differs-from-column-major-Mat2-product", json!({"a": jxs(&a), "b": jxs(&b), "helper": jxs(&g), "Mat2": jmat(&m)}), w); } }
+            });
+            s.class_n(MAPS[map], lattice_count(8, d) as u64);
+        }
+        let dp = if th { 6 } else { 3 };
+        vec4_prim::<i32>(s, dp, "i32", &|v: i128, _e: i32| v as i32, &[(0, 0)]);
+        vec4_prim::<i64>(s, dp, "i64", &|v: i128, _e: i32| v as i64, &[(0, 0)]);
+        vec4_prim::<f32>(s, dp, "f32", &|v: i128, e: i32| (v as f32) * f32p2(e), &[(0, 0), (40, -40), (-40, 40), (40, 40), (-40, -40)]);
+        vec4_prim::<f64>(s, dp, "f64", &|v: i128, e: i32| (v as f64) * f64p2(e), &[(0, 0), (400, -400), (-400, 400), (400, 400), (-400, -400)]);
+        s.sample(json!({"map": "fractional", "a": "[1/2, -3/2+..]", "functions": 6, "also": "mat2_rows_mul vs rm::Mat2*rm::Mat2, mat2_cols_mul vs cm::Mat2*cm::Mat2"}));
     });
     std::process::exit(rep.finish());
 }
